@@ -25,7 +25,8 @@ META = {
     "must be bit-identical to Python's; a deterministic stride of those spellings is additionally evaluated through "
     "compile_expression.  Boundary integers in decimal/binary/octal/hex with every single-underscore placement and "
     "boundary floats (subnormal, max, overflow to inf, shortest-repr neighbours) in repr-style and alternative "
-    "spellings are checked through the lexer, compile_expression, `{{ }}` rendering and a `{% set %}` round trip.  "
+    "spellings are checked through the lexer, compile_expression, `{{ }}` rendering and a `{% set %}` round trip; the "
+    "overflowing / non-finite ones also inside constant containers that get folded (|list, |first, |dictsort, subscripts).  "
     "Strings: every string of length <= 3 (thorough 4) over 15 code-point classes in every spelling family (repr-like with "
     "either quote, raw, raw line breaks, \\x / \\u / \\U / octal / \\N{} escapes, backslash-newline continuation at every "
     "position with LF/CRLF/CR, adjacent literals split at every position) "
@@ -307,6 +308,84 @@ EXTRA_FLOATS = ["1e309", "1E309", "1e400", "1_0e308", "2e308", "1.8e308", "1.797
                 "0_0.0_0", "1e0_1", "1e-0_1", "0e-0", "9007199254740993.0", "1e23", "8.41e21", "0.1e1", "12.5e-1"]
 
 
+# overflowing / non-finite float literals and constant arithmetic inside constant containers that get folded
+_INF = float("inf")
+FOLD_ATOMS = [("1e400", _INF), ("-1e400", -_INF), ("1e309", _INF), ("1e308 * 10", _INF), ("-1e308 * 10", -_INF),
+              ("1e308 * 10 - 1e308 * 10", _INF - _INF), ("1.7976931348623157e308", sys.float_info.max), ("1.5", 1.5)]
+FOLD_SHAPES = [
+    ("[%s]", lambda a: [a]),
+    ("(%s,)", lambda a: (a,)),
+    ("{'k': %s}", lambda a: {"k": a}),
+    ("[%s]|list", lambda a: [a]),
+    ("(%s, 1)|list", lambda a: [a, 1]),
+    ("[%s]|first", lambda a: a),
+    ("(%s,)|last", lambda a: a),
+    ("[%s][0]", lambda a: a),
+    ("(1, %s)[1]", lambda a: a),
+    ("{'k': %s}['k']", lambda a: a),
+    ("{'k': %s}.k", lambda a: a),
+    ("{'k': %s}|dictsort", lambda a: [("k", a)]),
+    ("{'k': [%s]}|dictsort", lambda a: [("k", [a])]),
+    ("[[%s]]|first", lambda a: [a]),
+    ("[[%s]]|first|first", lambda a: a),
+    ("[(%s, 2)]|list", lambda a: [(a, 2)]),
+    ("{%s: 1}|list", lambda a: [a]),
+    ("[%s, 'a']|reverse|list", lambda a: ["a", a]),
+    ("[%s]|length", lambda a: 1),
+]
+
+
+def same_value(a, b):
+    """type-exact, bit-exact for floats (-0.0 included; any nan equals any nan), elementwise for containers."""
+    if type(a) is not type(b):
+        return False
+    if type(a) in (list, tuple):
+        return len(a) == len(b) and all(same_value(x, y) for x, y in zip(a, b))
+    if type(a) is dict:
+        return len(a) == len(b) and all(same_value(k1, k2) and same_value(a[k1], b[k2]) for k1, k2 in zip(a, b))
+    if type(a) is float:
+        return (a != a and b != b) or same_number(a, b)  # the sign bit of a nan carries no meaning
+    return a == b
+
+
+SCRIPT_FOLD = (
+    "import jinja2\n"
+    "env = jinja2.Environment()\n"
+    "expr = %r\n"
+    "for what, run in (('compile_expression', lambda: env.compile_expression(expr)()),\n"
+    "                  ('{%% set %%} + output', lambda: env.from_string('{%% set v = ' + expr + ' %%}{{ v }}').render()),\n"
+    "                  ('{{ }}', lambda: env.from_string('{{ ' + expr + ' }}').render())):\n"
+    "    try:\n        print(what, '->', repr(run()))\n    except Exception as e:\n        print(what, 'raises', type(e).__name__, e)\n"
+)
+
+
+def fold_shard(atoms):
+    from jinja2 import Environment
+
+    p = core.Part()
+    for sa, va in atoms:
+        for fmt, build in FOLD_SHAPES:
+            expr = fmt % sa
+            want = build(va)
+            env = Environment()
+            for route, run in (("expr", lambda: expr_value(env, expr)), ("set", lambda: set_roundtrip(env, expr)),
+                               ("render", lambda: render_text(env, expr))):
+                p.evals += 1
+                r = run()
+                expected = str(want) if route == "render" else want
+                ok = r[0] == "val" and (r[1] == expected if route == "render" else same_value(r[1], expected))
+                p.sig(("fold", fmt, route, r[0] if r[0] == "val" else r[1], va != va or va in (_INF, -_INF)))
+                if not ok:
+                    kind = r[1] if r[0] == "exc" else "wrong-value"
+                    nonfinite = va != va or va in (_INF, -_INF)
+                    sig = f"C14/overflow-to-inf/{kind} (nested)" if nonfinite else f"C14/fold/{kind}"
+                    p.violation(sig, {"msg": f"{route}: {expr!r} -> {r[1:]!r}, expected {expected!r}",
+                                      "script": SCRIPT_FOLD % expr})
+        p.sample({"kind": "folded constant container", "expression": FOLD_SHAPES[3][0] % sa,
+                  "python": repr(FOLD_SHAPES[3][1](va))}, cap=1)
+    return p
+
+
 def boundary_shard(arg):
     kind, items = arg
     from jinja2 import Environment
@@ -563,6 +642,9 @@ def run(ctx: core.Ctx):
         "and CR in the source) under the default newline_sequence, for which the property's 'exactly that value' is "
         "stated; under a non-default one the raw line break is first rewritten to newline_sequence "
         "(CALIBRATED rule above), so 'a\\<LF>b' evaluates to 'a' + backslash + newline_sequence + 'b' there",
+        "folded-container family: 8 float atoms (1e400, -1e400, 1e309, 1e308*10, -1e308*10, nan by inf-inf, float max, 1.5) "
+        "inside 19 constant list/tuple/dict expressions (|list, |first, |last, |dictsort, |reverse, subscripts, attribute "
+        "lookup, dict key) through compile_expression, {% set %} + probe and {{ }} output; reference value built in Python",
         "backslash followed by a character that is not a Python escape (deprecated 'invalid escape sequence') is not enumerated",
         "integer literals longer than sys.get_int_max_str_digits() are out of scope",
     ]
@@ -583,6 +665,7 @@ def run(ctx: core.Ctx):
     bshards += [("float", c) for c in chunks(float_values(), 16)]
     bshards += [("floatspelling", c) for c in chunks(EXTRA_FLOATS, 4)]
     ctx.pmap(boundary_shard, bshards)
+    ctx.pmap(fold_shard, [[a] for a in FOLD_ATOMS])
 
     if quick:
         sshards = [("", str_len, nl_seqs, False, True)] + [(c, str_len, nl_seqs, False, False) for c in CLASSES]
